@@ -78,35 +78,37 @@ Lemma move_write st v p e :
   let sv := hrun cfg beh st v [HOp (Move p); HOp (WElem e)] in
   Sync (fst sv) (snd sv) /\ ts_size (fst sv) = ts_size st /\
   trace (snd sv) = (p, display_of e) :: trace v /\
-  cells (snd sv) = upd_cell (cells v) p (display_of e).
+  cells (snd sv) = upd_cell (cells v) p (display_of e) /\
+  modes_of (snd sv) = modes_of v.
 Proof.
   intros S Hin He Hns. unfold hrun. cbn [fold_left hstep].
   pose proof (sync_move cfg beh st v p S Hin) as Hm. cbv zeta in Hm.
-  destruct Hm as (S1 & Ht1 & _ & Hc1 & _ & _ & Hcur1 & _ & Hs1 & _).
-  rewrite <- (step_bytes cfg beh Huni st v (Move p) S Hin) in S1, Ht1, Hc1.
+  destruct Hm as (S1 & Ht1 & Hmo1 & Hc1 & _ & _ & Hcur1 & _ & Hs1 & _).
+  rewrite <- (step_bytes cfg beh Huni st v (Move p) S Hin) in S1, Ht1, Hc1, Hmo1.
   set (st1 := fst (step beh st (Move p))) in *.
   set (v1 := vt_bytes cfg v (obytes beh st (Move p))) in *.
   (* the write: optional default attribute, then write_element *)
   assert (Hwf : wf_op st1 (WElem e)) by (cbn [wf_op]; apply wf_elem_wf_elem_c; exact He).
   rewrite (step_bytes cfg beh Huni st1 v1 (WElem e) S1 Hwf). cbn [step].
   pose proof (sync_oda cfg beh st1 v1 S1) as Ho. cbv zeta in Ho.
-  destruct Ho as (S2 & Hl2 & Ht2 & _ & Hc2 & _ & _ & Hcur2 & Hs2).
+  destruct Ho as (S2 & Hl2 & Ht2 & Hmo2 & Hc2 & _ & _ & Hcur2 & Hs2).
   destruct (optional_default_attribute st1) as [st2 c2] eqn:E2. cbn [fst snd] in *.
   destruct (ts_last st2) as [l2|] eqn:El2; [|congruence].
   pose proof (sync_write_element cfg beh Huni st2 (vt_execs cfg v1 c2) e l2 S2 El2 He) as H.
-  cbv zeta in H. destruct H as [S3 [[q [Htr Hq]] [_ Hcells]]].
+  cbv zeta in H. destruct H as [S3 [[q [Htr Hq]] [Hmo3 Hcells]]].
   assert (Hsz3 : ts_size (fst (write_element beh st2 e)) = ts_size st2).
   { unfold write_element. cbn [fst]. destruct (advance_other (set_last st2 (Some e)) (eg e)) as (A & _). exact A. }
   destruct (write_element beh st2 e) as [st3 c3] eqn:E3. cbn [fst snd] in *.
   rewrite vt_execs_app.
   assert (Hcur : ts_cur st2 = Some p) by (rewrite Hcur2; exact Hcur1).
-  split; [exact S3|]. split; [rewrite Hsz3, Hs2; exact Hs1|]. split.
+  split; [exact S3|]. split; [rewrite Hsz3, Hs2; exact Hs1|]. split; [|split].
   - rewrite Htr, Ht2, Ht1. rewrite (Hq p Hcur). reflexivity.
   - rewrite (Hcells p Hcur).
     + rewrite Hc2, Hc1. reflexivity.
     + assert (Hvs : vsize (vt_execs cfg v1 c2) = ts_size st).
       { rewrite <- (sy_size _ _ _ S2). rewrite Hs2. exact Hs1. }
       rewrite Hvs. exact Hns.
+  - rewrite Hmo3, Hmo2. exact Hmo1.
 Qed.
 
 Definition upd_all (f : pt -> cell) (l : list (pt * element)) : pt -> cell :=
@@ -119,15 +121,16 @@ Lemma cells_run : forall l st v,
   let sv := hrun cfg beh st v (map HOp (flat_map cell_ops l)) in
   Sync (fst sv) (snd sv) /\ ts_size (fst sv) = ts_size st /\
   trace (snd sv) = rev (map (fun pe => (fst pe, display_of (snd pe))) l) ++ trace v /\
-  cells (snd sv) = upd_all (cells v) l.
+  cells (snd sv) = upd_all (cells v) l /\
+  modes_of (snd sv) = modes_of v.
 Proof.
   induction l as [|pe r IH]; intros st v S Hall.
   - cbn. split; [exact S|]. repeat split.
   - destruct (Hall pe (or_introl eq_refl)) as (Hin & Hwf & Hns).
     pose proof (move_write st v (fst pe) (snd pe) S Hin Hwf Hns) as H. cbv zeta in H.
-    destruct H as (S1 & Hs1 & Ht1 & Hc1).
+    destruct H as (S1 & Hs1 & Ht1 & Hc1 & Hmo1).
     cbn [flat_map cell_ops app map]. unfold hrun. cbn [fold_left].
-    unfold hrun in S1, Hs1, Ht1, Hc1. cbn [fold_left] in S1, Hs1, Ht1, Hc1.
+    unfold hrun in S1, Hs1, Ht1, Hc1, Hmo1. cbn [fold_left] in S1, Hs1, Ht1, Hc1, Hmo1.
     set (sv1 := hstep cfg beh (hstep cfg beh (st, v) (HOp (Move (fst pe)))) (HOp (WElem (snd pe)))) in *.
     specialize (IH (fst sv1) (snd sv1) S1).
     assert (Hall' : forall q, In q r -> inside (fst q) (ts_size (fst sv1)) = true /\
@@ -135,10 +138,11 @@ Proof.
     { intros q Hq. rewrite Hs1. apply Hall. right. exact Hq. }
     specialize (IH Hall'). cbv zeta in IH. unfold hrun in IH.
     replace (fst sv1, snd sv1) with sv1 in IH by (destruct sv1; reflexivity).
-    destruct IH as (S2 & Hs2 & Ht2 & Hc2).
-    split; [exact S2|]. split; [rewrite Hs2; exact Hs1|]. split.
+    destruct IH as (S2 & Hs2 & Ht2 & Hc2 & Hmo2).
+    split; [exact S2|]. split; [rewrite Hs2; exact Hs1|]. split; [|split].
     + rewrite Ht2, Ht1. cbn [map rev]. rewrite <- app_assoc. reflexivity.
     + rewrite Hc2, Hc1. reflexivity.
+    + rewrite Hmo2. exact Hmo1.
 Qed.
 
 (* the value of a cell after a batch of updates that all carry F(position) *)
@@ -212,7 +216,8 @@ Theorem draw_correct s st v c :
   let st' := snd (fst (draw beh s st c)) in
   let v' := vt_bytes cfg v (render_all (snd (draw beh s st c))) in
   Sync st' v' /\ Frame c v' /\ last_frame (fst (fst (draw beh s st c))) = c /\
-  ts_size st' = ts_size st /\ trace v' = rev (placed_cells s c) ++ trace v.
+  ts_size st' = ts_size st /\ trace v' = rev (placed_cells s c) ++ trace v /\
+  modes_of v' = modes_of v.
 Proof.
   intros S Hsz Hwf Hframe Hns. unfold draw.
   destruct (run_hrun cfg beh (draw_ops s c) st v) as [R1 R2].
@@ -223,23 +228,23 @@ Proof.
   (* first phase: the erase on a size change *)
   assert (P1 : exists st1 v1,
      fold_left (hstep cfg beh) (map HOp (if same_size s c then [] else [Erase EDisplay])) (st, v) = (st1, v1) /\
-     Sync st1 v1 /\ ts_size st1 = ts_size st /\ trace v1 = trace v /\
+     Sync st1 v1 /\ ts_size st1 = ts_size st /\ trace v1 = trace v /\ modes_of v1 = modes_of v /\
      (forall x y, x < cw c -> y < ch c -> cells v1 (x, y) = display_of (cv_get (prev_frame s c) x y))).
   { unfold prev_frame. fold (same_size s c). destruct (same_size s c) eqn:Ess.
-    - exists st, v. cbn. split; [reflexivity|]. split; [exact S|]. split; [reflexivity|]. split; [reflexivity|].
+    - exists st, v. cbn. split; [reflexivity|]. split; [exact S|]. split; [reflexivity|]. split; [reflexivity|]. split; [reflexivity|].
       intros x y Hx Hy. apply (Hframe eq_refl).
       + unfold same_size in Ess. apply andb_prop in Ess as [E1 _]. apply N.eqb_eq in E1. lia.
       + unfold same_size in Ess. apply andb_prop in Ess as [_ E2]. apply N.eqb_eq in E2. lia.
     - pose proof (sync_erase cfg beh st v EDisplay S) as He. cbv zeta in He.
-      destruct He as (S1 & Ht & _ & Hc & _ & _ & _ & _).
-      rewrite <- (step_bytes cfg beh Huni st v (Erase EDisplay) S I) in S1, Ht, Hc.
+      destruct He as (S1 & Ht & Hmo & Hc & _ & _ & _ & _).
+      rewrite <- (step_bytes cfg beh Huni st v (Erase EDisplay) S I) in S1, Ht, Hc, Hmo.
       eexists. eexists. cbn [map fold_left hstep]. split; [reflexivity|].
       split; [exact S1|]. split.
       { cbn [step]. unfold to_default_attribute. destruct (ts_last st); reflexivity. }
-      split; [exact Ht|].
+      split; [exact Ht|]. split; [exact Hmo|].
       intros x y Hx Hy. rewrite Hc. unfold region_blank. cbn [erase_region_of].
       rewrite blank_get. reflexivity. }
-  destruct P1 as (st1 & v1 & E1 & S1 & Hs1 & Ht1 & Hc1). rewrite E1.
+  destruct P1 as (st1 & v1 & E1 & S1 & Hs1 & Ht1 & Hmo1 & Hc1). rewrite E1.
   (* second phase: the changed cells *)
   pose proof (cells_run cfg beh Huni (changed_cells (prev_frame s c) c) st1 v1 S1) as H2.
   assert (Hall : forall pe, In pe (changed_cells (prev_frame s c) c) ->
@@ -253,7 +258,7 @@ Proof.
     assert (fst (fst pe) = cw c - 1 /\ snd (fst pe) = ch c - 1) as [Ex Ey] by lia.
     rewrite He, Ex, Ey in Hne. congruence. }
   specialize (H2 Hall). cbv zeta in H2. unfold hrun in H2.
-  destruct H2 as (S2 & Hs2 & Ht2 & Hc2).
+  destruct H2 as (S2 & Hs2 & Ht2 & Hc2 & Hmo2).
   split; [exact S2|]. split.
   - (* the display equals the canvas *)
     intros x y Hx Hy. rewrite Hc2.
@@ -263,7 +268,7 @@ Proof.
       rewrite (Hc1 x y Hx Hy). apply element_eqb_display. apply not_changed; assumption.
     + intros pe Hin. destruct (in_changed _ _ _ Hin) as (_ & _ & He & _). rewrite He. reflexivity.
   - split; [reflexivity|]. split; [rewrite Hs2; exact Hs1|].
-    rewrite Ht2, Ht1. reflexivity.
+    split; [rewrite Ht2, Ht1; reflexivity|]. rewrite Hmo2. exact Hmo1.
 Qed.
 
 End DrawThm.
